@@ -192,7 +192,24 @@ pub fn realistic_title(rng: &mut Rng, lang: &str, corpus: &[Rec]) -> String {
 pub fn rand_recs(rng: &mut Rng, lang: &str, n: usize, distinct_ratings: bool, corpus: &[Rec]) -> Vec<Rec> {
     let mut ratings: Vec<usize> = (0..n).map(|i| if distinct_ratings { i * 7 + 1 + rng.below(7) } else { rng.below(4) }).collect();
     rng.shuffle(&mut ratings);
-    (0..n).map(|i| (100 + i * 3, realistic_title(rng, lang, corpus), ratings[i])).collect()
+    (0..n)
+        .map(|i| {
+            // one title in twenty is a long listing of 21-40 words (beyond the 20-slot match buffers)
+            let t = if rng.chance(1, 20) { long_title(rng, lang) } else { realistic_title(rng, lang, corpus) };
+            (100 + i * 3, t, ratings[i])
+        })
+        .collect()
+}
+
+pub fn long_title(rng: &mut Rng, lang: &str) -> String {
+    let n = rng.range(21, 40);
+    let alpha = lower_alphabet(lang);
+    let v = vocab(lang);
+    let mut words: Vec<String> = vec![];
+    for _ in 0..n {
+        words.push(if rng.chance(1, 2) { rng.pick(&v).to_string() } else { rand_word(rng, &alpha, 2, 9) });
+    }
+    words.join(*rng.pick(&[" ", " ", ", ", " - "]))
 }
 
 pub fn tok_record(lang: &Lang, title: &str) -> TextOwn {
